@@ -96,6 +96,16 @@ CHECKS = {
              "not generated (the statement does not say which law wins).",
         technique="TLA+ specs Grading.tla (TLC exhaustive) + SizesJudge.tla (TLC trace acceptor over decoded cell sizes)",
         ref="DESIGN.md section 4 C04"),
+    "C08": dict(
+        text="Arc.tla enumerates exact arcs (lattice points on circles x2+y2=R2 in integer orthogonal frames; triples with an "
+             "exact mid point; integer dot/cross products fixing the included angle) and TLC checks the mid-point/reflection "
+             "identities; every instance is mapped by a random similarity and AngleEdge (both signs), OriginEdge, ArcEdge and "
+             "arc_length_3point are compared with the exact mid point and R*theta; chord bound for every edge kind.",
+        note="Only angles with rational sine/cosine are exact instances (Pythagorean triples of radius 5 and 25); arbitrary "
+             "orientation and radius come from the similarity. Origin arcs are judged as the minor arc (flatness 1).",
+        technique="TLA+ spec Arc.tla/Lattice.tla: TLC-enumerated exact instances with spec-level identities; instance evaluation "
+                  "of the implementation under similarity conjugation",
+        ref="DESIGN.md section 4 C08"),
 }
 
 def main():
